@@ -9,7 +9,7 @@ HARNESS = os.path.join(os.path.dirname(__file__), "harness", "h_c13.py")
 
 def keyfn(r):
     err = r["replay"].get("err") or ""
-    g = r["env"].get("VERIF_G", "0")
+    g = r["env"].get("VERIF_G13", "0")
     if " raised " in err:
         cls = "raises-" + err.split(" raised ")[1].split(":")[0]
     elif "not a derivation tree" in err:
@@ -22,6 +22,8 @@ def keyfn(r):
         cls = "root-changed"
     else:
         cls = "inconsistent-result"
+    if r["name"] == "insert_ctx_closed" and cls == "inserted-tree-missing":
+        return ("insert/context-addition/closed-inserted-tree-restructured", "host choices %s: %s" % (r["args"], err[:400]))
     return ("insert/g%s/%s" % (g, cls), "host choices %s: %s" % (r["args"], err[:400]))
 
 
@@ -31,11 +33,11 @@ def main(tier, only):
                       "path_to_tree", "connect_trees"]])
     L, to = (4, 300) if tier == "quick" else (6, 3000)
     cfgs = []
-    for g in (0, 1):
-        for pf in (("0,0,0", "0,0,1", "0,0,2", "0,1", "0,2") if g == 1 else ("0,0", "0,1", "0,2")):
-            cfgs.append(dict(tag="g%d.prefix%s" % (g, pf.replace(",", "")), env={"VERIF_G": str(g), "VERIF_L": str(L), "VERIF_PREFIX": pf}, only=None, timeout=to))
-        cfgs.append(dict(tag="g%d.short" % g, env={"VERIF_G": str(g), "VERIF_L": "2" if g == 1 else "1"}, only=None, timeout=to))
-    run.bounds = dict(hosts="all (open or closed) host trees decodable from <= %d choices, 2 grammars (assignment language, XML-like self-embedding)" % L,
+    for g in (0, 1, 2, 3):
+        for pf in (("0,0,0", "0,0,1", "0,0,2", "0,1", "0,2") if g in (1, 3) else ("0,0", "0,1", "0,2")):
+            cfgs.append(dict(tag="g%d.prefix%s" % (g, pf.replace(",", "")), env={"VERIF_G13": str(g), "VERIF_L": str(L), "VERIF_PREFIX": pf}, only=None, timeout=to))
+        cfgs.append(dict(tag="g%d.short" % g, env={"VERIF_G13": str(g), "VERIF_L": "2" if g == 1 else "1"}, only=None, timeout=to))
+    run.bounds = dict(hosts="all (open or closed) host trees decodable from <= %d choices, 4 grammars (assignment language, XML-like self-embedding, left-recursive expressions, settings with alternatives of different length)" % L,
                       inserted="for every nonterminal: an open leaf, a smallest closed tree, a one-step expansion", methods="all 7 non-empty subsets of {direct, self embedding, context addition}")
     run.engines = dict(crosshair="crosshair-tool 0.0.110 on z3 4.11.2")
     run.trusted = ["tree validator and reference traversal in the harness"]
